@@ -267,7 +267,7 @@ def check(plan, res):
     if v: return v
     out = []
     def bad(kind, msg, cls): out.append(Violation(PROP, kind, msg, PROP + '/' + cls))
-    kinds = plan.meta['kinds']
+    kinds = plan.meta.get('kinds', [])
     # every compilation: object xor reported error
     errs_since = 0; cur = None
     comp = {}
@@ -338,7 +338,7 @@ def summarize(plan, res):
         if e.kind == 'R' and e.rest.startswith('COMP ') and not e.rest.split(' ')[1].startswith(('p', 'u')):
             w = e.rest.split(' ')
             oc.append((int(w[1]), w[3] == 'ok=1'))
-    kinds = plan.meta['kinds']
+    kinds = plan.meta.get('kinds', [])
     seq = ' '.join('%s:%d' % (kinds[i] if i < len(kinds) else '?', ok) for i, ok in oc)
     nfail = sum(1 for _, ok in oc if not ok); nok = sum(1 for _, ok in oc if ok)
     return {'nontrivial': nfail >= 3 and nok >= 1, 'abstract': hashlib.sha256(seq.encode()).hexdigest()[:16],
